@@ -262,7 +262,7 @@ void Session::monitor_tx_hook(int hook, htp_tx_t *tx, TxM &m) {
     if ((int)tx->request_progress < m.reqprog) viol("C05:request_progress_backwards:" + site);
     m.reqprog = tx->request_progress;
     if ((int)tx->response_progress < m.resprog) {
-        bool restart100 = (tx->seen_100continue > m.seen100) || m.last_status == 100 || tx->response_status_number == 100;
+        bool restart100 = m.last_status == 100; // the documented restart: the response line seen last for this transaction carried status 100 (the library's own seen_100continue counter is not taken as evidence)
         if (!(restart100 && tx->response_progress >= HTP_RESPONSE_LINE)) viol("C05:response_progress_backwards:" + site);
     }
     m.resprog = tx->response_progress; m.seen100 = tx->seen_100continue;
